@@ -57,7 +57,10 @@ Selectors == {"same", "none", "shift", "firstonly", "extra"}
 \* harness gives them to the second trajectory of every second case)
 \* "save_retry": an in-memory store whose first save - asking for an associated file at a path that cannot be
 \* created - is refused, then saved into one file: a refused save leaves nothing behind that a later save sees
-Layouts == {"single", "assoc_at_create", "create_associated", "save_from_memory", "save_retry", "evicted", "split", "split_assoc"}
+\* "override_in_session": as "single", and before the writing session is closed an associated file holding ANOTHER version
+\* of the same field set is produced from the store by create_associated (the optional scalars unset where the base has them set and the other way round): the
+\* base file reads back what was added; opened together with that file (override) it reads back the other version
+Layouts == {"single", "assoc_at_create", "create_associated", "save_from_memory", "save_retry", "evicted", "split", "split_assoc", "override_in_session"}
 Trajs == {1, 2}
 AllUnset == SUBSET Opt
 NoUnset == {{}}
